@@ -64,42 +64,58 @@ def worker(job):
             continue       # not admissible at these sizes
         case = {"lazy": sorted(S), "style": style, "sizes": {k: sizes[k] for k in names}}
         rec["cases"].append(case)
-        for j, (r, m) in enumerate(zip(res, meta)):
-            op = prog["steps"][j]["op"]
-            fields = [f"o{j}_values", f"o{j}_null"] if impl.is_nullable(m["dtype"]) else [f"o{j}"]
-            core = m["dtype"][1:] if impl.is_nullable(m["dtype"]) else m["dtype"]
-            got = raw[fields[0]]
-            rt_dtype = "utf8" if got.dtype.kind in "OU" else str(got.dtype)
-            problems = []
-            if rt_dtype != core:
-                problems.append(("dtype", core, rt_dtype))
-            if m["ndim"] != got.ndim:
-                problems.append(("ndim", m["ndim"], got.ndim))
-            else:
-                for a, (st, rtv) in enumerate(zip(m["shape"], got.shape)):
-                    if isinstance(st, int) and st != rtv:
-                        problems.append((f"shape[{a}]", st, rtv))
-            for f in fields:
-                et, dims = declared[f]
-                want_et = "bool" if f.endswith("_null") else core
-                if et != want_et:
-                    problems.append((f"declared-elem-type:{f}", et, want_et))
-                if dims is not None:
-                    if len(dims) != raw[f].ndim:
-                        problems.append((f"declared-rank:{f}", len(dims), raw[f].ndim))
-                    else:
-                        for a, (dd, rtv) in enumerate(zip(dims, raw[f].shape)):
-                            if isinstance(dd, int) and dd != rtv:
-                                problems.append((f"declared-dim[{a}]:{f}", dd, rtv))
-            sv = raw[f"s{j}"]
-            if list(map(int, sv.tolist())) != list(got.shape) or str(sv.dtype) != "int64":
-                problems.append(("shape-as-array", sv.tolist(), list(got.shape)))
+
+        def first_problems(raw):
+            """(step, op, problems, static meta, run-time value) of the first step whose report contradicts `raw`."""
+            for j, (r, m) in enumerate(zip(res, meta)):
+                op = prog["steps"][j]["op"]
+                fields = [f"o{j}_values", f"o{j}_null"] if impl.is_nullable(m["dtype"]) else [f"o{j}"]
+                core = m["dtype"][1:] if impl.is_nullable(m["dtype"]) else m["dtype"]
+                got = raw[fields[0]]
+                rt_dtype = "utf8" if got.dtype.kind in "OU" else str(got.dtype)
+                problems = []
+                if rt_dtype != core:
+                    problems.append(("dtype", core, rt_dtype))
+                if m["ndim"] != got.ndim:
+                    problems.append(("ndim", m["ndim"], got.ndim))
+                else:
+                    for a, (st, rtv) in enumerate(zip(m["shape"], got.shape)):
+                        if isinstance(st, int) and st != rtv:
+                            problems.append((f"shape[{a}]", st, rtv))
+                for f in fields:
+                    et, dims = declared[f]
+                    want_et = "bool" if f.endswith("_null") else core
+                    if et != want_et:
+                        problems.append((f"declared-elem-type:{f}", et, want_et))
+                    if dims is not None:
+                        if len(dims) != raw[f].ndim:
+                            problems.append((f"declared-rank:{f}", len(dims), raw[f].ndim))
+                        else:
+                            for a, (dd, rtv) in enumerate(zip(dims, raw[f].shape)):
+                                if isinstance(dd, int) and dd != rtv:
+                                    problems.append((f"declared-dim[{a}]:{f}", dd, rtv))
+                sv = raw[f"s{j}"]
+                if list(map(int, sv.tolist())) != list(got.shape) or str(sv.dtype) != "int64":
+                    problems.append(("shape-as-array", sv.tolist(), list(got.shape)))
+                if problems:
+                    return j, op, problems, m, got
+            return None
+
+        found = first_problems(raw)
+        if found is not None:
+            j, op, problems, m, got = found
+            # is the exported model at fault, or onnxruntime's graph optimiser?  (same model, optimisations disabled)
+            suffix = ""
+            try:
+                raw0 = dict(zip(onames, impl.session(model, optimise=False).run(None, feeds)))
+                if first_problems(raw0) is None:
+                    suffix = "-only-with-onnxruntime-graph-optimizations"
+            except Exception:
+                pass
             for what, static, runtime in problems:
-                rec["fail"].append({**case, "kind": what.split(":")[0].split("[")[0] + "-contradicts-run-time", "step": j, "op": op,
+                rec["fail"].append({**case, "kind": what.split(":")[0].split("[")[0] + "-contradicts-run-time" + suffix, "step": j, "op": op,
                                     "cause": style, "detail": {"what": what, "reported": static, "run_time": runtime,
                                                                "reported_shape": list(m["shape"]), "run_time_shape": list(got.shape)}})
-            if problems:
-                break
     return rec
 
 
